@@ -122,6 +122,7 @@ class Ctx:
                     return False, "goq build failed: " + out
         spec = os.path.join(VERIF, "checks", "specs", spec_name + ".goq.json")
         outv = os.path.join(COQ, "theories", "Gen", out_module + ".v")
+        os.makedirs(os.path.dirname(outv), exist_ok=True)  # Gen/*.v is git-ignored: the directory may not exist in a fresh checkout
         tmp = outv + ".tmp.%d" % os.getpid()
         rc, out = sh([binp, "-repo", REPO, "-spec", spec, "-out", tmp], timeout=60)
         if rc != 0:
